@@ -218,7 +218,8 @@ def conformance(m: HdlcModel):
                 unk = f" (under unrecognised condition(s) {[t for t, _, _ in sp.unknown]}, treated as free)" if sp.unknown else ""
                 # an unrecognised condition that only looks at the current frame (its header, its length) may be another spelling of one of the frame literals
                 # the row is defined by (header check sequence available, expected length, ...): whether this path belongs to the row is then not known
-                frame_pred = bool(sp.unknown) and all(_pure_frame_predicate(m, g_) for _, _, g_ in sp.unknown)
+                frame_pred = bool(sp.unknown) and all(_pure_frame_predicate(m, g_) for _, _, g_ in sp.unknown) and id(sp) not in m.__dict__.get("free_paths", ())
+                # (a frame predicate that the frame worlds show to be independent of the too-short literal is free: the path belongs to the row for some frames)
                 res.append(Result("und" if frame_pred else "bad", "row:" + rid, rid, f"{desc}: {why}{unk}", loc(m, sp), witness=f"[{sp.guard_text()}] => {sp.post.brief()}"))
         if not n_bad:
             res.append(Result("ok", "row:" + rid, rid, f"{len(ps)} path(s) of the step function conform: {desc}"))
